@@ -149,14 +149,19 @@ func Shapes3Scaled(full bool, k float64) []Shape3 {
 		}
 		out = append(out, Rect(c.Sub(C3{X: 1, Y: 0.5, Z: 2}.Scale(k)), c.Add(C3{X: 0.5, Y: 1.5, Z: 0.25}.Scale(k))))
 		out = append(out, Rect(c, c.Add(C3{X: 3, Y: 0.1, Z: 1}.Scale(k))))
-		for _, ax := range axes {
+		for ai, ax := range axes {
 			for _, r := range radii {
 				for _, l := range lengths {
 					p2 := c.Add(ax.Normalize().Scale(l))
 					out = append(out, Capsule(c, p2, r), Cylinder(c, p2, r), Cone(c, p2, r))
 				}
 			}
-			out = append(out, Torus(c, ax, 0.3*k, 1.2*k), Torus(c, ax.Scale(2.5), 0.9*k, 1*k))
+			// the axis is a direction, not a unit vector: longer and shorter than 1 alternately
+			axScale := 2.5
+			if ai%2 == 1 {
+				axScale = 0.25
+			}
+			out = append(out, Torus(c, ax, 0.3*k, 1.2*k), Torus(c, ax.Scale(axScale), 0.9*k, 1*k))
 		}
 	}
 	if k != 1 {
